@@ -7,15 +7,30 @@ META = dict(
           "argument slot is set to every boundary/adversarial value of its type (ids -2,-1,0,n-1,n,n+1,2^31-1,2^31,2^63; "
           "positions -1,-0.0,0,L-eps,L,L+1,nan,+-inf; empty/duplicate/unsorted/wrong-length/wrong-dtype/2-D arrays; "
           "out-of-order, overlapping, NaN windows and intervals) with the other slots valid, on five input kinds, followed by a "
-          "follow-up use of the same objects; (program) random 3-10 step table-operation programs on table collections "
+          "follow-up use of the same objects; the catalogue extension (c09_ext.py) adds the low-level accessors a user reaches "
+          "through ll_tree_sequence / ll_table / _ll_tables (get_<record>, get_row, update_row, extend, sample_set_sizes, newick buffer "
+          "size), integer row indexes and add_row id fields of all eight tables, every table column replaced by a malformed array "
+          "through nine entry forms, tables/collections compared and merged with OTHER objects (other row count, other class, self), "
+          "low-level objects never initialised / re-initialised / with deleted attributes, object lifetimes (arrays, trees, variants, "
+          "segment lists, tables used after their owner is gone), id lists as tuple/range/narrow/byte-swapped/read-only arrays and "
+          "huge ids that would wrap onto a valid id (2^32 + id), sample-set indexes at and beyond the number of sets, tree sequences "
+          "accepted with WRONG mutation parents (input kind + dedicated site-algorithm entry), and one structurally extreme input "
+          "(261 children of one node, 300-node unary chain, 261 samples); (program) random 3-10 step table-operation programs on table collections "
           "corrupted by 1-3 operators (out-of-range ids per reference column, NaN/inf/out-of-range coordinates, shuffled rows, "
-          "stale/out-of-range/truncated index, dangling individual parents); (oom) every tsk allocation of ~34 calls "
+          "stale/out-of-range/truncated index, dangling individual parents, and - audit - in-range but inconsistent ids, individual "
+          "parent cycles, degenerate coordinates and times, duplicated rows, truncated referenced tables, changed sequence_length, "
+          "node flags, an index that is stale for the same number of edges, > 64 KiB blobs, wrong mutation parents; operators that do "
+          "not apply are re-drawn; later calls also merge with / compare against the pristine collection and query an accepted tree "
+          "sequence); (bulk) 14 cases that grow each table class by 2^21+1 / 2*2^21+1000 rows (one entry by 100 MiB) in ONE operation "
+          "through set_columns / append_columns / extend / fromdict / copy / dump+load / tree_sequence and read the rows back; "
+          "(oom) every tsk allocation of ~34 calls "
           "failed in turn through an LD_PRELOAD shim; (memcheck) slices of the sweep and program workloads repeated on the plain "
           "gcc -O2 build under valgrind memcheck with origin tracking, every returned value branched on or written to /dev/null, "
           "reports kept when the error or origin stack has a frame in tskit's C sources. Oracle: process status + ASan/UBSan log, SystemError, hang watchdog, and "
-          "'must raise' for identifiers outside the documented range. Distinct = sha1 of (call, input kind, input rows) or "
+          "'must raise' for identifiers outside the documented range, and (ASan workers) no returned array element made of the "
+          "allocator's 0xBE fill pattern (uninitialised heap handed to the caller). Distinct = sha1 of (call, input kind, input rows) or "
           "(rows, corruption list); trivial when no corruption applied."),
-    REQUIRED=["calls", "program-ops", "id-clause-checks", "followup-probes", "oom-injections", "memcheck:runs"],
+    REQUIRED=["calls", "program-ops", "id-clause-checks", "followup-probes", "oom-injections", "memcheck:runs", "fill-pattern-scans", "bulk-readbacks"],
     ASSUMPTIONS=ASSUME_COMMON + [
         "UBSan nonnull-attribute is disabled (memcpy(NULL, .., 0) on empty columns is treated as defined)",
         "a watchdog firing counts only after an isolated re-run with 5x the budget hangs again",
